@@ -1062,6 +1062,8 @@ class Engine:
                 try:
                     v = self.eval_operand(st, m.group(2), frame) if m.group(1) == "PtrMetadata" else \
                         dict(self.load(st, *self.parse_place(st, m.group(2), frame)))
+                    if ("nbv",) in v:        # symbolic slice whose length is a 64-bit term
+                        return {(): v[("nbv",)]}
                     if ("n",) in v:          # symbolic slice (start, len) installed by a spec model
                         return {(): z3.Int2BV(v[("n",)], 64)}
                 except ValueError:
